@@ -8,7 +8,16 @@ SOLVER_CORE = ["solve_expression", "find", "lemma_match_unfold", "lemma_ids_wf",
 FRONT_PARSE = ["parse", "parse_expr", "parse_led", "parse_nud", "is_solvable"]
 FRONT_LEX = ["tokenise", "consume_while", "match_ahead"]
 
+# a unit verified under a different cfg: alias -> (template unit, extra verus arguments)
+UNIT_ALIASES = {"identifier_ic": ("identifier", ["--cfg", 'feature="ignore_case"'])}
+
 PROPS = {
+    "C15": {
+        "units": {"identifier": ["into_identifier", "lemma_ignore_case_is_i_prefix"], "identifier_ic": ["into_identifier"]},
+        "explanation": "into_identifier is extracted once and verified twice, with and without --cfg feature=\"ignore_case\" (the real cfg! macro): the default build is proved to equal classify_default (leading 'i' = insensitive, stripped), the feature build classify_ignore_case (always insensitive, nothing stripped); lemma: classify_ignore_case(s) == classify_default('i' + s). Everything downstream is the same code on the same Identifier.",
+        "scans": [{"what": "feature ignore_case is read only in into_identifier", "pattern": r'feature\s*=\s*"ignore_case"', "allowed_files": ["identifier.rs"], "max": 1}],
+        "assumptions": ["downstream code never sees the feature: checked by the frame scan above"],
+    },
     "C03": {
         "units": {"front": FRONT_PARSE, "solver": ["solve_expression", "lemma_syntax_to_wf", "lemma_match_unfold", "lemma_ids_wf"]},
         "explanation": "every panic site of the extracted solver functions is discharged from wf(); the condition parser is proved to establish wf_syntax (operands of and/or/not are predicates), and lemma_syntax_to_wf bridges the two",
@@ -16,7 +25,7 @@ PROPS = {
                         "identifier bodies built by parse_mapping are assumed well formed (ids_wf)"],
     },
     "C04": {
-        "units": {"front": FRONT_LEX + FRONT_PARSE},
+        "units": {"front": FRONT_LEX + FRONT_PARSE, "identifier": ["into_identifier"]},
         "explanation": "termination (decreases on remaining chars/tokens) and panic-freedom of the tokeniser and the Pratt parser for inputs of any length",
         "assumptions": ["conditions shorter than 2^31 tokens (i32 parenthesis depth counter)"],
     },
@@ -31,7 +40,7 @@ PROPS = {
         "assumptions": ["YAML -> expression translation (parse_mapping) is not under contract"],
     },
     "C07": {
-        "units": {"solver": ["search"]},
+        "units": {"solver": ["search"], "identifier": ["into_identifier"]},
         "explanation": "search() equals the documented relation per kind over all strings (byte-level model of str); the Aho-Corasick arm is proved to accept exactly when some reported occurrence passes its start/end filter",
         "assumptions": ["the automaton reports exactly the occurrences of its needles (trusted spec of aho-corasick)", "list batching in parse_mapping is not under contract"],
     },
